@@ -174,7 +174,8 @@ class ExprMixin:
                     for v_ in val.elts)
             if seq_of_callables or isinstance(val, ast.Dict) and val.keys and all(k is not None and isinstance(k, ast.Constant) for k in val.keys) and \
                     all(isinstance(v_, (ast.Lambda, ast.Name, ast.Attribute)) for v_ in val.values) and \
-                    any(isinstance(v_, ast.Lambda) for v_ in val.values):
+                    (any(isinstance(v_, ast.Lambda) for v_ in val.values) or
+                     all(isinstance(v_, ast.Name) and v_.id in m.functions for v_ in val.values)):
                 # a dispatch table {key: lambda ...}: read by value so that TABLE[key](x) is the call of that function
                 prev, self.cur = self.cur, _ModuleScope(m, self.cur)
                 try:
@@ -613,6 +614,14 @@ class ExprMixin:
                 n_new = sum(1 for i in items if isinstance(i, Const) and i.value is None)
                 n_int = sum(1 for i in items if isinstance(i, Poly))
                 return inner + n_new - n_int
+        if name == 'ndim' and isinstance(base, Poly) and base.single_atom() is not None and base.single_atom()[0] == 'app' and \
+                base.single_atom()[1] in ('atleast_1d', 'atleast_2d', 'atleast_3d', 'numpy.atleast_1d', 'numpy.atleast_2d', 'numpy.atleast_3d') \
+                and base.single_atom()[2] and isinstance(base.single_atom()[2][0], Poly):
+            ba = base.single_atom()
+            least = int(ba[1].rstrip('d')[-1])
+            inner = self.load_attr(ba[2][0], 'ndim', st, node)
+            if isinstance(inner, Poly) and inner.const_value() is not None:
+                return Poly.const(max(int(inner.const_value()), least))
         pb = P(base)
         at = nf.attr(pb, name)
         key = at.single_atom()
